@@ -71,7 +71,25 @@ def _is_await_readinto(stmt):
             and isinstance(stmt.value.value.func, ast.Attribute) and stmt.value.value.func.attr == "readinto")
 
 
+def _refresh_c09_params():
+    """coq/Run/C08.v uses the blocking model of Conc/TlsEof.v, which reads Gen/ParamsC09.v: keep it in step."""
+    import c09
+    from common import coqrun
+    text = "(* REGENERATED from /repo on every run by harness/c09.py -- do not edit *)\n" + c09.params_text()
+    path = os.path.join(coqrun.COQ, "Gen", "ParamsC09.v")
+    with coqrun.build_lock():
+        old = open(path).read() if os.path.exists(path) else None
+        if old != text:
+            with open(path, "w") as fh:
+                fh.write(text)
+
+
 def params():
+    _refresh_c09_params()
+    return params_text()
+
+
+def params_text():
     """Does the WANT_READ branch re-check, once it holds the recv lock, whether another task fed the SSL object in the
     meantime (meta/fixes/C08_lost_wakeup.diff)?  Recognises exactly the unpatched and the patched shape."""
     path = os.path.join(runner.REPO, _TLS)
@@ -286,7 +304,7 @@ def _events_to_trace(events, results):
 
 
 def current_flag():
-    return int("true" in params())
+    return int("true" in params_text())
 
 
 def run_two_readers(cfg):
@@ -364,6 +382,162 @@ def run_two_readers(cfg):
     return dict(labels=labels, out=[obs, results, info.get("wpending", 0), 0, 0], info=info)
 
 
+def run_sync_duplex(cfg):
+    """Blocking SSLStreamTransport over a socketpair, full duplex: a sender thread and a receiver thread on ONE transport,
+    the peer (independent ssl.SSLObject) behind a relay thread that throttles its ciphertext into fragments.  Every join
+    has a watchdog.  Returns per-thread (ops, raw SSL answers) and results."""
+    import select
+    import socket
+    import threading
+
+    from easynetwork.lowlevel.api_sync.transports.socket import SSLStreamTransport
+
+    rng = random.Random(cfg["seed"])
+    ver, client, frag = cfg["ver"], bool(cfg["client"]), cfg["frag"]
+    peer_plain = [_plain(n, b"P%d" % i) for i, n in enumerate(cfg["peer_writes"])]
+    script = [("write", d) for d in peer_plain]
+    log, tags = [], {}
+    if client:
+        peer = K.Peer(K.server_ctx(ver), True, script)
+        ctx = K.ThreadRawRecContext(K.client_ctx(ver), log, tags)
+    else:
+        peer = K.Peer(K.client_ctx(ver), False, script)
+        ctx = K.ThreadRawRecContext(K.server_ctx(ver), log, tags)
+    peer.lazy = True
+    a, b = socket.socketpair()
+    b.setblocking(False)
+    stop = threading.Event()
+    state = dict(err=None, wire=bytearray())
+
+    def relay():
+        pending = bytearray(peer.pump())
+        try:
+            while not stop.is_set():
+                want_w = bool(pending)
+                r, w, _ = select.select([b], [b] if want_w else [], [], 0.02)
+                if r:
+                    try:
+                        data = b.recv(65536)
+                    except BlockingIOError:
+                        data = None
+                    if data == b"":
+                        break
+                    if data:
+                        state["wire"] += data
+                        peer.feed(data)
+                        pending += peer.pump()
+                if not pending:
+                    pending += peer.pump()          # the peer speaks on its own (next scripted write)
+                if pending and w:
+                    n = frag if frag > 0 else rng.choice([1, 3, 17, 500, 4000]) if frag < 0 else len(pending)
+                    try:
+                        k = b.send(bytes(pending[:n]))
+                    except BlockingIOError:
+                        k = 0
+                    del pending[:k]
+        except OSError as exc:
+            state["err"] = repr(exc)
+
+    th = threading.Thread(target=relay, daemon=True)
+    th.start()
+    tmo = 10.0
+    results = {0: [], 1: [], 2: []}
+    ops = {0: [], 1: [], 2: []}
+    info = dict(got=bytearray(), sent_plain=bytearray(), stuck=False)
+    tags[threading.get_ident()] = 0
+    t = None
+    ops[0].append([0, 0])
+    try:
+        t = SSLStreamTransport(a, ctx, 1.0, server_side=not client, server_hostname="localhost" if client else None,
+                               standard_compatible=True, handshake_timeout=tmo, shutdown_timeout=1.0)
+        results[0].append([1, 0, 0])
+    except BaseException as exc:
+        results[0].append([1, 1, _exc_code(exc)])
+
+    def sender():
+        tags[threading.get_ident()] = 1
+        for i, n in enumerate(cfg["writes"]):
+            data = _plain(n, b"T%d.0" % i)
+            view = memoryview(data)
+            while view:
+                ops[1].append([3, [len(view)]])
+                try:
+                    k = t.send(view, tmo)
+                    results[1].append([1, 0, k])
+                except BaseException as exc:
+                    results[1].append([1, 1, _exc_code(exc)])
+                    return
+                view = view[k:]
+            info["sent_plain"] += data
+
+    def receiver():
+        tags[threading.get_ident()] = 2
+        want = sum(cfg["peer_writes"])
+        n = cfg["recv_size"]
+        while len(info["got"]) < want:
+            ops[2].append([2 if cfg.get("into") else 1, n])
+            try:
+                if cfg.get("into"):
+                    buf = bytearray(n)
+                    k = t.recv_into(buf, tmo)
+                    d = bytes(buf[:k])
+                else:
+                    d = t.recv(n, tmo)
+                results[2].append([1, 0, len(d)])
+            except BaseException as exc:
+                results[2].append([1, 1, _exc_code(exc)])
+                return
+            if not d:
+                return
+            info["got"] += d
+
+    if t is not None:
+        ts = [threading.Thread(target=sender, daemon=True), threading.Thread(target=receiver, daemon=True)]
+        for x in ts:
+            x.start()
+        for x in ts:
+            x.join(30)                       # watchdog
+            if x.is_alive():
+                info["stuck"] = True
+    # let the relay drain what the transport sent
+    for _ in range(100):
+        if info["stuck"] or bytes(peer.plain_in) == bytes(info["sent_plain"]):
+            break
+        threading.Event().wait(0.01)
+    answers = {0: [], 1: [], 2: []}
+    for tag, m, code, val in list(log):
+        answers[tag].append([m, code, val])
+    stop.set()
+    th.join(10)
+    if t is not None and not info["stuck"]:
+        try:
+            t.close()
+        except BaseException:
+            pass
+    for s_ in (a, b):
+        try:
+            s_.close()
+        except OSError:
+            pass
+    problems = []
+    if info["stuck"] or th.is_alive():
+        problems.append("deadlock: a thread of the blocking full-duplex run did not finish (watchdog)")
+    expected_in = b"".join(peer_plain)
+    if bytes(info["got"]) != expected_in:
+        problems.append("blocking transport: plaintext read is not the plaintext written by the peer")
+    all_writes = b"".join(_plain(n, b"T%d.0" % i) for i, n in enumerate(cfg["writes"]))
+    if bytes(peer.plain_in) != all_writes:
+        problems.append("blocking transport: plaintext read by the peer is not the plaintext written through the transport")
+    if MARKER in bytes(state["wire"]):
+        problems.append("blocking transport: plaintext marker found on the wire")
+    threads = [[ops[i], answers[i]] for i in (0, 1, 2)]
+    out = [[results[i] for i in (0, 1, 2)]]
+    if problems:
+        out.append([b"assertion failed on the real run: " + problems[0].encode()])
+    info.update(problems=problems, err=state["err"])
+    return dict(threads=threads, out=out, info=info)
+
+
 def check_run(cfg, rec, peer, info, events):
     problems = []
     if info["deadlock"]:
@@ -405,6 +579,9 @@ def _cfg_sx(cfg):
 
 def _sx_cfg(f):
     f = list(f)
+    if isinstance(f[0], bytes) and f[0] == b"sync-duplex":
+        return dict(kind="sync-duplex", ver=f[1], client=f[2], writes=list(f[3]), peer_writes=list(f[4]), frag=f[5],
+                    seed=f[6], recv_size=f[7], into=f[8])
     if isinstance(f[0], bytes):
         return dict(kind="two-readers", flag=f[1], ver=f[2], client=f[3])
     return dict(ver=f[0], client=f[1], writes=[w[0] if len(w) == 1 else list(w) for w in f[2]], peer_writes=list(f[3]),
@@ -413,6 +590,13 @@ def _sx_cfg(f):
 
 
 def _build(cfg):
+    if cfg.get("kind") == "sync-duplex":
+        r = run_sync_duplex(cfg)
+        inp = sx.norm([1, 1, r["threads"], [b"sync-duplex", cfg["ver"], int(cfg["client"]), list(cfg["writes"]),
+                                           list(cfg["peer_writes"]), cfg["frag"], cfg["seed"], cfg["recv_size"], int(cfg.get("into", 0))]])
+        out = sx.norm(r["out"])
+        _MEMO[sx.to_text(inp)] = out
+        return inp, out, r["info"]
     if cfg.get("kind") == "two-readers":
         r = run_two_readers(cfg)
         inp = sx.norm([r["labels"], [b"two-readers", cfg["flag"], cfg["ver"], int(cfg["client"])]])
@@ -434,6 +618,8 @@ def run_impl(inp):
     if cfg.get("kind") == "two-readers" and cfg["flag"] != current_flag():
         return [777]            # recorded for the other state of the lost-wakeup fix: not applicable to this tree
     inp2, out, _info = _build(cfg)
+    if cfg.get("kind") == "sync-duplex":
+        return out              # thread timing decides how many would-block rounds are recorded; results do not depend on it
     if sx.norm(inp2[0]) != sx.norm(inp[0]):
         return out + [[b"recorded trace differs from this run"]]
     return out
@@ -469,8 +655,10 @@ def cases(tier, rng, escalate):
     """All cases, ordered so that every block of 400 (one coqc shard) carries a similar share of the long traces."""
     thorough = tier == "thorough" or escalate
     cap = 12000 if thorough else 2500          # labels per case (longer traces are left to the other families)
-    allc = [c for c in _gen(thorough, rng) if len(c["input"][0]) <= cap]
-    allc.sort(key=lambda c: -len(c["input"][0]))
+    def weight(c):
+        return len(c["input"][0]) if isinstance(c["input"][0], list) else 50
+    allc = [c for c in _gen(thorough, rng) if weight(c) <= cap] + list(_gen_sync(thorough, rng))
+    allc.sort(key=lambda c: -weight(c))
     nb = max(1, -(-len(allc) // 400))
     buckets = [allc[b::nb] for b in range(nb)]
     out = []
@@ -488,6 +676,27 @@ def cases(tier, rng, escalate):
             if i < len(b):
                 out.append(b[i])
     return out
+
+
+def _gen_sync(thorough, rng):
+    """Blocking SSLStreamTransport, sender thread + receiver thread, throttling relay."""
+    seed = rng.randrange(1 << 30)
+    n = 0
+    for ver in (13, 12):
+        for client in (1, 0):
+            for k in range(12 if thorough else 4):
+                n += 1
+                writes = [rng.choice([1, 7, 100, 3000, 16385, 40000]) for _ in range(rng.randint(1, 3))]
+                peer_writes = [rng.choice([1, 7, 100, 3000, 16385, 40000]) for _ in range(rng.randint(1, 3))]
+                big = sum(peer_writes) > 5000
+                cfg = dict(kind="sync-duplex", ver=ver, client=client, writes=writes, peer_writes=peer_writes,
+                           frag=rng.choice([0, -1] if big else [0, 1, 7, -1]), seed=seed + n,
+                           recv_size=rng.choice([1, 64, 4096, 65536]) if not big else rng.choice([4096, 65536]), into=n % 2)
+                inp, _out, info = _build(cfg)
+                yield dict(input=inp, nontrivial=True,
+                           tags=["blocking-full-duplex", f"tls1.{ver - 10}", "client" if client else "server",
+                                 {0: "frag-none", 1: "frag1", 7: "frag7", -1: "frag-random"}[cfg["frag"]],
+                                 "big-write" if max(writes) > 16384 else "small-write"])
 
 
 def _gen(thorough, rng):
@@ -540,7 +749,8 @@ def _gen(thorough, rng):
 
 def oracle(inp):
     cfg = _sx_cfg(inp[-1])
-    r = run_two_readers(cfg) if cfg.get("kind") == "two-readers" else run_duplex(cfg)
+    r = (run_two_readers(cfg) if cfg.get("kind") == "two-readers" else
+         run_sync_duplex(cfg) if cfg.get("kind") == "sync-duplex" else run_duplex(cfg))
     problems = r["info"]["problems"]
     return problems[0] if problems else None
 
@@ -553,7 +763,7 @@ def signature(inp, failure):
 
 def shrink(inp):
     cfg = _sx_cfg(inp[-1])
-    if cfg.get("kind") == "two-readers":
+    if cfg.get("kind") in ("two-readers", "sync-duplex"):
         return
     if len(cfg["writes"]) > 1:
         for i in range(len(cfg["writes"])):
